@@ -43,7 +43,8 @@ _psSodium_crypto_sign_ed25519_verify_detached(const unsigned char *sig,
         return -1;
     }
 #else
-    if (sig[63] & 224) {
+    if ((sig[63] & 224) ||
+        psSodium_sc25519_is_canonical(sig + 32) == 0) {
         return -1;
     }
 #endif
